@@ -258,6 +258,7 @@ CURATED = {
     "nestutil": "C(U(C(l,l),l),N(R(l,l),l))",
     "headless": "c(c(l,l),o(l,r(l,l)),l)",
     "ortho89": "C(O(l,l,l,l,l,l,l,C(l,l)),O(l,l,l,l,l,l,l,l,R(l,l)),l)",
+    "ortho8last": "C(l,O(l,l,l,l,l,l,l,l))",
     "nestedortho": "C(O(O(l,l),C(l,l)),l)",
     "orthodeep": "O(C(C(l,C(l,l)),l),l)",
     "orthospine": "C(O(C(l,C(l,l)),l),l)",
